@@ -41,6 +41,7 @@ type unit struct {
 type transcript struct {
 	raw   []byte
 	units []unit
+	far   bool // long session: only the far-displacement operators are enumerated
 }
 
 func (t *transcript) plainBefore(k int) []byte {
@@ -62,16 +63,17 @@ type session struct {
 }
 
 type sessParams struct {
-	KeySize   int  `json:"keysize"`
-	Users     int  `json:"users"`
-	ReqPfx    int  `json:"req_prefix"`
-	RespPfx   int  `json:"resp_prefix"`
-	Seg       bool `json:"segmented_header_allowed"`
-	Fallback  bool `json:"fallback"`
-	Payload   int  `json:"initial_payload"`
-	NC        int  `json:"client_chunks"`
-	NS        int  `json:"server_chunks"`
+	KeySize    int  `json:"keysize"`
+	Users      int  `json:"users"`
+	ReqPfx     int  `json:"req_prefix"`
+	RespPfx    int  `json:"resp_prefix"`
+	Seg        bool `json:"segmented_header_allowed"`
+	Fallback   bool `json:"fallback"`
+	Payload    int  `json:"initial_payload"`
+	NC         int  `json:"client_chunks"`
+	NS         int  `json:"server_chunks"`
 	BigReadBuf bool `json:"big_read_buffer"`
+	Long       bool `json:"long,omitempty"`
 }
 
 func mkCfg(p *sessParams, tag string) *ssx.Cfg {
@@ -224,6 +226,9 @@ type tamperOp struct {
 // enumerate all operators for a transcript; other is a second transcript for splicing (may be nil).
 func enumerate(r *core.RNG, t *transcript, other *transcript, otherName string, samplePayload int) (ops []tamperOp, build func(op tamperOp) []byte) {
 	raw := t.raw
+	if t.far {
+		return enumerateFar(t)
+	}
 	for _, u := range t.units {
 		step := 1
 		if u.kind == "pay" || u.kind == "vh" {
@@ -323,6 +328,52 @@ func enumerate(r *core.RNG, t *transcript, other *transcript, otherName string, 
 	return
 }
 
+// enumerateFar: whole chunks displaced by a distance at which a nonce counter that loses a carry repeats itself
+// (each chunk advances the counter twice: 128 chunks = byte 0 wraps, 32768 chunks = byte 1 wraps): swap chunk k with
+// chunk k+d, drop a run of d chunks, duplicate a run of d chunks.
+func enumerateFar(t *transcript) (ops []tamperOp, build func(op tamperOp) []byte) {
+	raw := t.raw
+	var lens []int // indexes of the length units of data chunks
+	for k, u := range t.units {
+		if u.kind == "len" && k+1 < len(t.units) {
+			lens = append(lens, k)
+		}
+	}
+	for _, d := range []int{64, 127, 128, 129, 256, 32768} {
+		for _, ci := range []int{0, 1, 5} {
+			if ci+d < len(lens) {
+				ops = append(ops, tamperOp{"swap-far", lens[ci], d}, tamperOp{"drop-run", lens[ci], d}, tamperOp{"dup-run", lens[ci], d})
+			}
+		}
+	}
+	ub := func(a, b int) []byte { return raw[t.units[a].off : t.units[b-1].off+t.units[b-1].n] } // units [a,b)
+	build = func(op tamperOp) []byte {
+		k, d := op.Pos, op.Arg
+		end := len(t.units)
+		var out []byte
+		out = append(out, ub(0, k)...)
+		switch op.Name {
+		case "swap-far":
+			j := k + 2*d
+			out = append(out, ub(j, j+2)...)
+			out = append(out, ub(k+2, j)...)
+			out = append(out, ub(k, k+2)...)
+			if j+2 < end {
+				out = append(out, ub(j+2, end)...)
+			}
+		case "drop-run":
+			if k+2*d < end {
+				out = append(out, ub(k+2*d, end)...)
+			}
+		case "dup-run":
+			out = append(out, ub(k, k+2*d)...)
+			out = append(out, ub(k, end)...)
+		}
+		return out
+	}
+	return
+}
+
 // firstAltered returns the index of the first unit of t whose bytes are not found unchanged at
 // their position in alt, whether alt ends exactly at that unit's start (pure truncation at a
 // boundary), and whether alt is byte-identical to the genuine stream.
@@ -401,6 +452,19 @@ func runTamper(e *core.Env) {
 		rec.Begin("tamper", i, fmt.Sprintf("%+v", p))
 		sessionTrials(e, i, r, &p)
 	})
+	// long sessions: whole chunks displaced by 64..256 chunks (thorough: one pair of sessions with 33000 chunks, 32768)
+	nLong := e.N(4, 16)
+	core.Parallel(e, "tamper", nLong, 4, func(j int) {
+		i := nSess + j
+		r := core.NewRNG(e.Seed, "c02.long", j)
+		n := r.Pick(140, 300)
+		if !e.Quick() && j < 2 {
+			n = 33000
+		}
+		p := sessParams{KeySize: []int{16, 32}[j%2], Users: r.Pick(0, 2), Seg: r.Bool(), Payload: r.Pick(0, 17), NC: n, NS: n, BigReadBuf: r.Bool(), Long: true}
+		rec.Begin("tamper", i, fmt.Sprintf("%+v", p))
+		sessionTrials(e, i, r, &p)
+	})
 }
 
 func sessionTrials(e *core.Env, ci int, r *core.RNG, p *sessParams) {
@@ -424,6 +488,9 @@ func sessionTrials(e *core.Env, ci int, r *core.RNG, p *sessParams) {
 	}
 	c1.Close()
 	c2.Close()
+	if p.Long {
+		base.c2s.far, base.s2c.far = true, true
+	}
 	trials := 0
 	viol := func(dir string, op tamperOp, kind string, format string, a ...any) {
 		rec.Violate("tamper", ci, core.Sig("kind", kind, "part", "tamper", "dir", dir, "op", op.Name), map[string]any{"session": p, "op": op}, format, a...)
